@@ -1014,4 +1014,488 @@ example : specVerdict 0 (0 : ℚ) 1 (1/2) exPsms [1/2, 1/2, 1/2, 1/2, 2/3, 2/3] 
     specVerdict 0 (0 : ℚ) 1 (1/2) exPsms [1, 1/2, 1/2, 1/2, 2/3, 2/3] 1 = "bad:antitone" := by
   refine ⟨?_, ?_, ?_, ?_⟩ <;> decide +kernel
 
+
+/-! ## no panic over a canonical database -/
+
+section noPanic
+variable [DecidableEq κ] [LinearOrder σ]
+
+theorem compOf_rix_of_decoy (bot : σ) (psms : List (Psm κ ι σ)) (hc : Canon psms) (p : Psm κ ι σ)
+    (hp : p ∈ psms) (hd : p.decoy = true) : (compOf bot psms p.key).rix = some p.ix := by
+  simp only [compOf, foldl_upd_rix, Comp.init]
+  rw [foldl_last_const _ none p.ix]
+  · have : p ∈ ((psms.filter fun q => q.key = p.key).filter fun q => q.decoy) := by
+      simp [hp, hd]
+    split
+    · rename_i he; rw [he] at this; simp at this
+    · rfl
+  · intro q hq
+    simp only [List.mem_filter, decide_eq_true_eq] at hq
+    exact (hc q hq.1.1 p hp).mp ⟨hq.1.2, hq.2.trans hd.symm⟩
+
+/-- every PSM's entity has a row in the competition -/
+theorem psm_has_row (bot : σ) (psms : List (Psm κ ι σ)) (hc : Canon psms) (p : Psm κ ι σ) (hp : p ∈ psms) :
+    ∃ r ∈ rowsOf (competition bot psms), r.ix = p.ix := by
+  have hmem : (p.key, compOf bot psms p.key) ∈ competition bot psms :=
+    (mem_competition bot psms _ _).mpr ⟨⟨p, hp, rfl⟩, rfl⟩
+  cases hd : p.decoy with
+  | false =>
+    refine ⟨⟨p.ix, false, (compOf bot psms p.key).fwd⟩, ?_, rfl⟩
+    rw [mem_rowsOf]
+    exact ⟨_, hmem, (mem_rows _ _).mpr (Or.inl ⟨compOf_fix_of_target bot psms hc p hp hd, rfl, rfl⟩)⟩
+  | true =>
+    refine ⟨⟨p.ix, true, (compOf bot psms p.key).rev⟩, ?_, rfl⟩
+    rw [mem_rowsOf]
+    exact ⟨_, hmem, (mem_rows _ _).mpr (Or.inr ⟨compOf_rix_of_decoy bot psms hc p hp hd, rfl, rfl⟩)⟩
+
+/-- **C13.no_panic** — over a canonical database the index look-up `scores[&ix]` at the end of
+    `picked_peptide` / `picked_protein` never fails: every PSM gets a q-value (the model's `none`, the
+    code's panic, needs two entries with the same key and decoy flag but different indices). -/
+theorem no_panic (bot : σ) (pep : σ → ℚ) (thr : ℚ) (psms : List (Psm κ ι σ)) (hc : Canon psms)
+    (es : List (κ × Comp ι σ)) (hes : es.Perm (competition bot psms)) :
+    ∃ qs n, pickedWith pep castQ 1 thr es psms = some (qs, n) := by
+  unfold pickedWith
+  simp only
+  rw [if_pos]
+  · exact ⟨_, _, rfl⟩
+  · rw [List.all_eq_true]
+    intro p hp
+    obtain ⟨r, hr, hrx⟩ := psm_has_row bot psms hc p hp
+    have h1 := (tab_rows_perm_competition bot pep thr psms es hes).mem_iff.mpr hr
+    obtain ⟨rq, hm, he⟩ := List.mem_map.mp h1
+    unfold lookupQ
+    rw [Option.isSome_map, List.find?_isSome]
+    exact ⟨rq, List.mem_reverse.mpr hm, by simp [he, hrx]⟩
+
+end noPanic
+
+/-! ## NaN posterior errors -/
+
+/-- exact rationals plus one non-finite element: `none` = NaN -/
+def NQ := Option ℚ
+
+namespace NQ
+def nan : NQ := none
+def of (x : ℚ) : NQ := some x
+/-- IEEE `+`: NaN is absorbing -/
+def add : NQ → NQ → NQ
+  | some a, some b => some (a + b)
+  | _, _ => none
+/-- IEEE `/` with a positive finite divisor (the only divisors the code uses here: `target ≥ 1`); NaN is absorbing -/
+def div : NQ → NQ → NQ
+  | some a, some b => some (a / b)
+  | _, _ => none
+/-- IEEE `<=`: false as soon as one side is NaN -/
+def le : NQ → NQ → Prop
+  | some a, some b => a ≤ b
+  | _, _ => False
+instance : DecidableEq NQ := inferInstanceAs (DecidableEq (Option ℚ))
+instance : Add NQ := ⟨add⟩
+instance : Div NQ := ⟨div⟩
+instance : LE NQ := ⟨le⟩
+instance : DecidableLE NQ
+  | some a, some b => inferInstanceAs (Decidable (a ≤ b))
+  | none, _ => isFalse (fun h => h)
+  | some _, none => isFalse (fun h => h)
+/-- `usize as f32` -/
+def cast (n : Nat) : NQ := of (n : ℚ)
+
+@[simp] theorem add_some (a b : ℚ) : (of a) + (of b) = of (a + b) := rfl
+@[simp] theorem add_nan (a : NQ) : a + nan = nan := by cases a <;> rfl
+@[simp] theorem nan_add (a : NQ) : nan + a = nan := rfl
+@[simp] theorem nan_div (a : NQ) : nan / a = nan := rfl
+@[simp] theorem div_some (a b : ℚ) : (of a) / (of b) = of (a / b) := rfl
+@[simp] theorem le_some (a b : ℚ) : (of a ≤ of b) ↔ a ≤ b := Iff.rfl
+@[simp] theorem nan_le (a : NQ) : ¬ (nan ≤ a) := fun h => h
+@[simp] theorem le_nan (a : NQ) : ¬ (a ≤ nan) := by cases a <;> exact fun h => h
+theorem cases' (a : NQ) : a = nan ∨ ∃ x, a = of x := by
+  cases a with
+  | none => exact Or.inl rfl
+  | some x => exact Or.inr ⟨x, rfl⟩
+end NQ
+
+open NQ
+
+
+/-- a forward-pass entry that cannot change `q_min`: `+∞` (no target yet) or NaN -/
+def Dead (e : Row ι σ × Option NQ) : Prop := ∀ x, e.2 = some x → x = nan
+
+theorem ratio_nan (t : Nat) (x : NQ) (h : ratio NQ.cast nan t = some x) : x = nan := by
+  unfold ratio at h
+  by_cases ht : t = 0
+  · simp [ht] at h
+  · simp only [ht, ↓reduceIte, nan_div, Option.some.injEq] at h; exact h.symm
+
+theorem fwdPass_dead (inc : Row ι σ → NQ) (t : Nat) (rows : List (Row ι σ)) :
+    ∀ e ∈ fwdPass inc NQ.cast nan t rows, Dead e := by
+  induction rows generalizing t with
+  | nil => simp [fwdPass]
+  | cons r rs ih =>
+    intro e he
+    simp only [fwdPass, nan_add, List.mem_cons] at he
+    rcases he with rfl | he
+    · exact fun x hx => ratio_nan _ x hx
+    · exact ih _ e he
+
+/-- entries that are `+∞`/NaN leave `q_min` at `1.0` all the way -/
+theorem cummin_dead (l : List (Row ι σ × Option NQ)) (h : ∀ e ∈ l, Dead e) :
+    cummin (of 1) l = l.map fun e => (e.1, of 1) := by
+  induction l with
+  | nil => rfl
+  | cons e es ih =>
+    obtain ⟨r, x⟩ := e
+    have ih' := ih (fun e he => h e (List.mem_cons_of_mem _ he))
+    simp only [cummin, ih', List.map_cons, List.cons.injEq, Prod.mk.injEq, true_and, and_true]
+    have hhd : hd (of 1) (es.map fun e => (e.1, of 1)) = of 1 := by cases es <;> rfl
+    rw [hhd]
+    cases x with
+    | none => rfl
+    | some y =>
+      have := h (r, some y) (by simp) y rfl
+      subst this
+      simp [qmin]
+
+
+theorem fwdPass_fst' {α : Type} [Add α] [Div α] (inc : Row ι σ → α) (cast : Nat → α) (d : α) (t : Nat)
+    (rows : List (Row ι σ)) : (fwdPass inc cast d t rows).map (·.1) = rows := by
+  induction rows generalizing d t with
+  | nil => rfl
+  | cons r rs ih => simp [fwdPass, ih]
+
+theorem lookupQ_mem' {α : Type} (tab : List (Row ι σ × α)) (ix : ι) (q : α)
+    (h : lookupQ tab ix = some q) : ∃ r, (r, q) ∈ tab ∧ r.ix = ix := by
+  unfold lookupQ at h
+  simp only [Option.map_eq_some_iff] at h
+  obtain ⟨rq, hf, rfl⟩ := h
+  have hm := List.mem_of_find?_eq_some hf
+  have hp := List.find?_some hf
+  exact ⟨rq.1, by simpa using hm, by simpa using hp⟩
+
+/-- once the running `decoy` sum is NaN, or the next PEP is, every later ratio is `+∞`/NaN -/
+theorem fwdPass_dead_first (inc : Row ι σ → NQ) (d : NQ) (t : Nat) (r : Row ι σ) (rs : List (Row ι σ))
+    (h : inc r = nan) : ∀ e ∈ fwdPass inc NQ.cast d t (r :: rs), Dead e := by
+  intro e he
+  simp only [fwdPass, h, add_nan, List.mem_cons] at he
+  rcases he with rfl | he
+  · exact fun x hx => ratio_nan _ x hx
+  · exact fwdPass_dead inc _ rs e he
+
+section
+variable [LinearOrder σ]
+
+/-- **C13.nan_first_row** — if the PEP of the best-scoring row is NaN, `decoy` is NaN from the first
+    addition on, every `decoy / target` is NaN (or `+∞`), `q_min.min(NaN)` keeps `q_min`, and
+    `assign_q_value` returns q = 1.0 for every row and a passing count of 0 (threshold below 1). -/
+theorem nan_first_row (inc : Row ι σ → NQ) (thr : NQ) (hthr : ¬ (of 1 ≤ thr)) (rows : List (Row ι σ))
+    (h : ∀ r rs, sortRows rows = r :: rs → inc r = nan) :
+    assignRows inc NQ.cast (of 1) thr rows = ((sortRows rows).map fun r => (r, of 1), 0) := by
+  have hdead : ∀ e ∈ fwdPass inc NQ.cast (of 1) 0 (sortRows rows), Dead e := by
+    cases hs : sortRows rows with
+    | nil => simp [fwdPass]
+    | cons r rs => exact fwdPass_dead_first inc _ _ r rs (h r rs hs)
+  have htab : cummin (of 1) (fwdPass inc NQ.cast (of 1) 0 (sortRows rows)) =
+      (sortRows rows).map fun r => (r, of 1) := by
+    rw [cummin_dead _ hdead]
+    conv_rhs => rw [← fwdPass_fst' inc NQ.cast (of 1) 0 (sortRows rows)]
+    rw [List.map_map]; rfl
+  simp only [assignRows, htab, Prod.mk.injEq, true_and]
+  rw [List.length_eq_zero_iff, List.filter_eq_nil_iff]
+  intro rq hrq
+  obtain ⟨r, -, rfl⟩ := List.mem_map.mp hrq
+  simp [hthr]
+
+/-- **C13.nan_all** — when EVERY posterior error is NaN (what the KDE returns for a class with zero
+    score variance: a single decoy, a single class, all scores equal — C14's known finding), every
+    peptide- or protein-level q-value is 1.0 and the passing count is 0. -/
+theorem nan_all (pep : σ → NQ) (hpep : ∀ s, pep s = nan) (thr : NQ) (hthr : ¬ (of 1 ≤ thr))
+    {κ : Type} (es : List (κ × Comp ι σ)) :
+    assignQ pep NQ.cast (of 1) thr es = ((sortRows (rowsOf es)).map fun r => (r, of 1), 0) :=
+  nan_first_row _ thr hthr _ (fun r _ _ => hpep r.score)
+
+/-- … and so does every PSM (`picked_peptide` / `picked_protein` output) -/
+theorem nan_all_psms (pep : σ → NQ) (hpep : ∀ s, pep s = nan) (thr : NQ) (hthr : ¬ (of 1 ≤ thr))
+    {κ : Type} (es : List (κ × Comp ι σ)) (psms : List (Psm κ ι σ)) (qs : List NQ) (n : Nat)
+    (h : pickedWith pep NQ.cast (of 1) thr es psms = some (qs, n)) :
+    n = 0 ∧ qs.length = psms.length ∧ ∀ q ∈ qs, q = of 1 := by
+  unfold pickedWith at h
+  simp only [nan_all pep hpep thr hthr es] at h
+  split at h
+  · rename_i hall
+    simp only [Option.some.injEq, Prod.mk.injEq] at h
+    obtain ⟨rfl, rfl⟩ := h
+    refine ⟨rfl, by simp, ?_⟩
+    intro q hq
+    obtain ⟨p, hp, rfl⟩ := List.mem_map.mp hq
+    obtain ⟨q, hq⟩ := Option.isSome_iff_exists.mp ((List.all_eq_true.mp hall) p hp)
+    rw [hq]
+    obtain ⟨r, hm, -⟩ := lookupQ_mem' _ _ _ hq
+    obtain ⟨r', -, he⟩ := List.mem_map.mp hm
+    exact (Prod.mk.inj he).2.symm
+  · exact absurd h (by simp)
+
+
+/-- state of the running `decoy` sum: NaN, or a positive number -/
+def NanOrPos (d : NQ) : Prop := d = nan ∨ ∃ v, d = of v ∧ 0 < v
+
+theorem fwdPass_nanOrPos (inc : Row ι σ → NQ) (hinc : ∀ r x, inc r = of x → 0 ≤ x) (d : NQ) (hd : NanOrPos d)
+    (t : Nat) (rows : List (Row ι σ)) :
+    ∀ e ∈ fwdPass inc NQ.cast d t rows, ∀ y, e.2 = some y → NanOrPos y := by
+  induction rows generalizing d t with
+  | nil => simp [fwdPass]
+  | cons r rs ih =>
+    have hd' : NanOrPos (d + inc r) := by
+      rcases hd with rfl | ⟨v, rfl, hv⟩
+      · exact Or.inl rfl
+      · rcases NQ.cases' (inc r) with h | ⟨x, h⟩
+        · rw [h]; exact Or.inl (add_nan _)
+        · rw [h]; exact Or.inr ⟨v + x, rfl, by have := hinc r x h; linarith⟩
+    intro e he y hy
+    simp only [fwdPass, List.mem_cons] at he
+    rcases he with rfl | he
+    · simp only [ratio] at hy
+      by_cases ht : (if r.decoy = true then t else t + 1) = 0
+      · simp [ht] at hy
+      · simp only [ht, ↓reduceIte, Option.some.injEq] at hy
+        subst hy
+        rcases hd' with h | ⟨v, h, hv⟩
+        · rw [h]; exact Or.inl rfl
+        · rw [h]
+          refine Or.inr ⟨v / ((if r.decoy = true then t else t + 1 : Nat) : ℚ), rfl, ?_⟩
+          exact div_pos hv (by exact_mod_cast Nat.pos_of_ne_zero ht)
+    · exact ih _ hd' _ e he y hy
+
+theorem cummin_finite_range (l : List (Row ι σ × Option NQ))
+    (h : ∀ e ∈ l, ∀ y, e.2 = some y → NanOrPos y) :
+    (∃ x, hd (of 1) (cummin (of 1) l) = of x ∧ 0 < x ∧ x ≤ 1) ∧
+    ∀ rq ∈ cummin (of 1) l, ∃ x, rq.2 = of x ∧ 0 < x ∧ x ≤ 1 := by
+  induction l with
+  | nil => exact ⟨⟨1, rfl, by norm_num, le_refl _⟩, by simp [cummin]⟩
+  | cons e es ih =>
+    obtain ⟨r, y⟩ := e
+    obtain ⟨⟨m, hm, hm0, hm1⟩, ihall⟩ := ih (fun e he => h e (List.mem_cons_of_mem _ he))
+    have hq : ∃ x, qmin (hd (of 1) (cummin (of 1) es)) y = of x ∧ 0 < x ∧ x ≤ 1 := by
+      rw [hm]
+      cases y with
+      | none => exact ⟨m, rfl, hm0, hm1⟩
+      | some y =>
+        rcases h (r, some y) (by simp) y rfl with rfl | ⟨v, rfl, hv⟩
+        · exact ⟨m, by simp [qmin], hm0, hm1⟩
+        · by_cases hle : v ≤ m
+          · exact ⟨v, by simp [qmin, hle], hv, le_trans hle hm1⟩
+          · exact ⟨m, by simp [qmin, hle], hm0, hm1⟩
+    refine ⟨by simpa [cummin] using hq, ?_⟩
+    intro rq hrq
+    simp only [cummin, List.mem_cons] at hrq
+    rcases hrq with rfl | hrq
+    · exact hq
+    · exact ihall rq hrq
+
+/-- **C13.q_range_nan** — with posterior errors that are NaN for SOME scores and non-negative otherwise,
+    every q-value is still a number in (0, 1] (never NaN): `decoy` is positive until the first NaN and
+    NaN afterwards, a NaN ratio never wins `q_min.min(..)`, and `q_min` starts at 1.0. -/
+theorem q_range_nan (inc : Row ι σ → NQ) (hinc : ∀ r x, inc r = of x → 0 ≤ x) (thr : NQ) (rows : List (Row ι σ)) :
+    ∀ rq ∈ (assignRows inc NQ.cast (of 1) thr rows).1, ∃ x, rq.2 = of x ∧ 0 < x ∧ x ≤ 1 :=
+  (cummin_finite_range _ (fwdPass_nanOrPos inc hinc (of 1) (Or.inr ⟨1, rfl, by norm_num⟩) 0 _)).2
+
+/-- non-vacuity (both theorems): T D T at scores 3, 2, 1 with PEP(3) = 0, PEP(2) = NaN, PEP(1) = 1/2:
+    the first row gets 1/1, the others NaN; q = 1, 1, 1. With PEP(3) = NaN as well nothing changes. -/
+example : (assignRows (ι := Nat) (σ := Nat) (fun r => if r.score = 3 then of 0 else if r.score = 2 then nan else of (1/2))
+    NQ.cast (of 1) (of (1/100)) [⟨0, false, 3⟩, ⟨1, true, 2⟩, ⟨2, false, 1⟩]) =
+    ([(⟨0, false, 3⟩, of 1), (⟨1, true, 2⟩, of 1), (⟨2, false, 1⟩, of 1)], 0) := by
+  rw [assignRows, sortRows_of_sorted _ (by decide)]
+  decide +kernel
+
+/-- non-vacuity of `q_range_nan` with a value below 1: T T D at scores 3, 2, 1, PEP = 0, 0, NaN: q = 1/2, 1/2, 1 -/
+example : (assignRows (ι := Nat) (σ := Nat) (fun r => if r.score = 1 then nan else of 0)
+    NQ.cast (of 1) (of (1/2)) [⟨0, false, 3⟩, ⟨1, false, 2⟩, ⟨2, true, 1⟩]) =
+    ([(⟨0, false, 3⟩, of (1/2)), (⟨1, false, 2⟩, of (1/2)), (⟨2, true, 1⟩, of 1)], 2) := by
+  rw [assignRows, sortRows_of_sorted _ (by decide)]
+  norm_num [fwdPass, cummin, ratio, qmin, NQ.cast]
+
+/-- non-vacuity of `nan_all`: the worked example of the property theorems with a NaN estimator -/
+example : (assignQ (fun _ : Nat => nan) NQ.cast (of 1) (of (1/100)) (competition 0 exPsms)).2 = 0 ∧
+    (assignQ (fun _ : Nat => nan) NQ.cast (of 1) (of (1/100)) (competition 0 exPsms)).1.length = 5 := by
+  rw [nan_all _ (fun _ => rfl) _ (by rw [NQ.le_some]; norm_num)]
+  refine ⟨rfl, ?_⟩
+  rw [List.length_map, (sortRows_perm _).length_eq, ex_rows]; rfl
+
+end
+
+
+/-! ## the two public functions over a database -/
+
+section dbLevel
+variable [LinearOrder σ]
+
+/-- `same_entity_same_q` needs no order laws on the index type (only the instances the model uses) -/
+theorem same_entity_same_q_gen {κ' ι' : Type} [DecidableEq ι'] [LE ι'] [DecidableLE ι'] (pep : σ → ℚ) (thr : ℚ)
+    (es : List (κ' × Comp ι' σ)) (psms : List (Psm κ' ι' σ)) (qs : List ℚ) (n : Nat)
+    (h : pickedWith pep castQ 1 thr es psms = some (qs, n)) (i j : Nat) (pi pj : Psm κ' ι' σ)
+    (hi : psms[i]? = some pi) (hj : psms[j]? = some pj) (hix : pi.ix = pj.ix) :
+    qs[i]? = qs[j]? ∧ (qs[i]?).isSome := by
+  unfold pickedWith at h
+  simp only at h
+  split at h
+  · simp only [Option.some.injEq, Prod.mk.injEq] at h
+    obtain ⟨rfl, -⟩ := h
+    simp [List.getElem?_map, hi, hj, hix]
+  · exact absurd h (by simp)
+
+theorem pepPsms_some (gd : Bool) (peps : List Pep) (feats : List (Nat × σ)) (psms : List (Psm PepKey Nat σ))
+    (h : pepPsms gd peps feats = some psms) :
+    (∀ f ∈ feats, f.1 < peps.length) ∧
+    psms = feats.map fun f => ⟨pepKey gd (peps.getD f.1 default), (peps.getD f.1 default).decoy, f.1, f.2⟩ := by
+  unfold pepPsms at h
+  split at h
+  · rename_i hall
+    exact ⟨fun f hf => by simpa using (List.all_eq_true.mp hall) f hf, (Option.some.inj h).symm⟩
+  · exact absurd h (by simp)
+
+theorem protPsms_some (gd : Bool) (tag : String) (peps : List Pep) (feats : List (Nat × σ))
+    (psms : List (Psm (List String) String σ)) (h : protPsms gd tag peps feats = some psms) :
+    (∀ f ∈ feats, f.1 < peps.length) ∧
+    psms = feats.map fun f => ⟨(peps.getD f.1 default).prots, (peps.getD f.1 default).decoy,
+      (peps.getD f.1 default).proteinStr tag gd, f.2⟩ := by
+  unfold protPsms at h
+  split at h
+  · rename_i hall
+    exact ⟨fun f hf => by simpa using (List.all_eq_true.mp hall) f hf, (Option.some.inj h).symm⟩
+  · exact absurd h (by simp)
+
+/-- **C13.picked_peptide_same_peptide** — `picked_peptide`: all PSMs of one peptide (same `peptide_idx`)
+    receive the same `peptide_q`, whatever their scores and positions in the list. -/
+theorem picked_peptide_same_peptide (bot : σ) (pep : σ → ℚ) (thr : ℚ) (gd : Bool) (peps : List Pep)
+    (feats : List (Nat × σ)) (qs : List ℚ) (n : Nat)
+    (h : pickedPeptide bot pep castQ 1 thr gd peps feats = some (qs, n))
+    (i j : Nat) (fi fj : Nat × σ) (hi : feats[i]? = some fi) (hj : feats[j]? = some fj)
+    (hsame : fi.1 = fj.1) : qs[i]? = qs[j]? ∧ (qs[i]?).isSome := by
+  unfold pickedPeptide at h
+  cases hp : pepPsms gd peps feats with
+  | none => rw [hp] at h; exact absurd h (by simp)
+  | some psms =>
+    rw [hp] at h
+    simp only [Option.bind_some] at h
+    obtain ⟨-, rfl⟩ := pepPsms_some gd peps feats psms hp
+    exact same_entity_same_q_gen pep thr _ _ qs n h i j _ _
+      (by rw [List.getElem?_map, hi]; rfl) (by rw [List.getElem?_map, hj]; rfl) hsame
+
+/-- **C13.picked_protein_same_group** — `picked_protein`: all PSMs whose peptides render the same protein
+    group string (`Peptide::proteins(decoy_tag, generate_decoys)`, the value written to the results)
+    receive the same `protein_q` — PSMs of different peptides of the group included. -/
+theorem picked_protein_same_group (bot : σ) (pep : σ → ℚ) (thr : ℚ) (gd : Bool) (tag : String)
+    (peps : List Pep) (feats : List (Nat × σ)) (qs : List ℚ) (n : Nat)
+    (h : pickedProtein bot pep castQ 1 thr gd tag peps feats = some (qs, n))
+    (i j : Nat) (fi fj : Nat × σ) (hi : feats[i]? = some fi) (hj : feats[j]? = some fj)
+    (hsame : (peps.getD fi.1 default).proteinStr tag gd = (peps.getD fj.1 default).proteinStr tag gd) :
+    qs[i]? = qs[j]? ∧ (qs[i]?).isSome := by
+  unfold pickedProtein at h
+  cases hp : protPsms gd tag peps feats with
+  | none => rw [hp] at h; exact absurd h (by simp)
+  | some psms =>
+    rw [hp] at h
+    simp only [Option.bind_some] at h
+    obtain ⟨-, rfl⟩ := protPsms_some gd tag peps feats psms hp
+    exact same_entity_same_q_gen pep thr _ _ qs n h i j _ _
+      (by rw [List.getElem?_map, hi]; rfl) (by rw [List.getElem?_map, hj]; rfl) hsame
+
+/-- in particular: same protein list and same decoy flag ⇒ same protein-level q-value -/
+theorem picked_protein_same_list (bot : σ) (pep : σ → ℚ) (thr : ℚ) (gd : Bool) (tag : String)
+    (peps : List Pep) (feats : List (Nat × σ)) (qs : List ℚ) (n : Nat)
+    (h : pickedProtein bot pep castQ 1 thr gd tag peps feats = some (qs, n))
+    (i j : Nat) (fi fj : Nat × σ) (hi : feats[i]? = some fi) (hj : feats[j]? = some fj)
+    (hprots : (peps.getD fi.1 default).prots = (peps.getD fj.1 default).prots)
+    (hdecoy : (peps.getD fi.1 default).decoy = (peps.getD fj.1 default).decoy) :
+    qs[i]? = qs[j]? ∧ (qs[i]?).isSome :=
+  picked_protein_same_group bot pep thr gd tag peps feats qs n h i j fi fj hi hj
+    (by simp only [Pep.proteinStr, hprots, hdecoy])
+
+/-- A database is canonical at the peptide level when no two entries have the same string and decoy flag
+    (what `reorder_peptides` + C08 provide). Then every PSM list over it satisfies `Canon`, the
+    hypothesis of `q_antitone`, `passing_count`, `order_invariant`, `model_meets_spec`. -/
+theorem canon_of_db (gd : Bool) (peps : List Pep)
+    (hdb : ∀ a b, a < peps.length → b < peps.length →
+      pepKey gd (peps.getD a default) = pepKey gd (peps.getD b default) →
+      (peps.getD a default).decoy = (peps.getD b default).decoy → a = b)
+    (feats : List (Nat × σ)) (psms : List (Psm PepKey Nat σ)) (h : pepPsms gd peps feats = some psms) :
+    Canon psms := by
+  obtain ⟨hlt, rfl⟩ := pepPsms_some gd peps feats psms h
+  intro p hp q hq
+  obtain ⟨f, hf, rfl⟩ := List.mem_map.mp hp
+  obtain ⟨g, hg, rfl⟩ := List.mem_map.mp hq
+  simp only
+  constructor
+  · rintro ⟨hk, hd⟩; exact hdb _ _ (hlt f hf) (hlt g hg) hk hd
+  · intro e; rw [e]; exact ⟨rfl, rfl⟩
+
+/-- the same at the protein level: canonical = the protein-group string determines protein list and decoy
+    flag (no `;` inside names, no target list that renders like a tagged decoy list) -/
+theorem canon_of_db_protein (gd : Bool) (tag : String) (peps : List Pep)
+    (hdb : ∀ a b, a < peps.length → b < peps.length →
+      (peps.getD a default).proteinStr tag gd = (peps.getD b default).proteinStr tag gd →
+      (peps.getD a default).prots = (peps.getD b default).prots ∧
+      (peps.getD a default).decoy = (peps.getD b default).decoy)
+    (feats : List (Nat × σ)) (psms : List (Psm (List String) String σ))
+    (h : protPsms gd tag peps feats = some psms) : Canon psms := by
+  obtain ⟨hlt, rfl⟩ := protPsms_some gd tag peps feats psms h
+  intro p hp q hq
+  obtain ⟨f, hf, rfl⟩ := List.mem_map.mp hp
+  obtain ⟨g, hg, rfl⟩ := List.mem_map.mp hq
+  simp only
+  constructor
+  · rintro ⟨hk, hd⟩; simp only [Pep.proteinStr, hk, hd]
+  · intro e; exact hdb _ _ (hlt f hf) (hlt g hg) e
+
+
+/-- non-vacuity: a two-protein database with internal decoys; PSMs 0 and 2 hit the same peptide, PSMs 0 and 1
+    different peptides of the same protein group "P1" -/
+def exDb : List Pep :=
+  [⟨false, [65, 67, 68, 75], [0, 0, 0, 0], none, none, ["P1"]⟩,
+   ⟨false, [65, 69, 70, 75], [0, 0, 0, 0], none, none, ["P1"]⟩,
+   ⟨true, [65, 68, 67, 75], [0, 0, 0, 0], none, none, ["P1"]⟩,
+   ⟨false, [71, 72, 73, 75], [0, 0, 0, 0], none, none, ["P2"]⟩]
+
+def exFeats : List (Nat × Nat) := [(0, 9), (1, 7), (0, 4), (2, 5), (3, 6)]
+
+example : ((pepPsms true exDb exFeats).map (·.map (·.key))) =
+    some [exDb[0].str, exDb[1].str, exDb[0].str, exDb[0].str, exDb[3].str] := by decide
+
+example : ((protPsms true "rev_" exDb exFeats).map (·.map (·.ix))) =
+    some ["P1", "P1", "P1", "rev_P1", "P2"] := by decide
+
+example : ∃ psms, pepPsms true exDb exFeats = some psms ∧ Canon psms :=
+  have h : ∀ a ∈ List.range 4, ∀ b ∈ List.range 4,
+      pepKey true (exDb.getD a default) = pepKey true (exDb.getD b default) →
+      (exDb.getD a default).decoy = (exDb.getD b default).decoy → a = b := by decide
+  ⟨_, rfl, canon_of_db true exDb
+    (fun a b ha hb => h a (List.mem_range.mpr ha) b (List.mem_range.mpr hb)) exFeats _ rfl⟩
+
+/-- non-vacuity of `picked_peptide_same_peptide` (and of `no_panic`, `canon_of_db`): over `exDb` the call
+    returns, and PSMs 0 and 2 (both of peptide 0, scores 9 and 4) get the same value -/
+example : ∃ qs n, pickedPeptide 0 exPep castQ 1 (1/2) true exDb exFeats = some (qs, n) ∧ qs[0]? = qs[2]? := by
+  have h : ∀ a ∈ List.range 4, ∀ b ∈ List.range 4,
+      pepKey true (exDb.getD a default) = pepKey true (exDb.getD b default) →
+      (exDb.getD a default).decoy = (exDb.getD b default).decoy → a = b := by decide
+  have hps : pepPsms true exDb exFeats = some (exFeats.map fun f =>
+      ⟨pepKey true (exDb.getD f.1 default), (exDb.getD f.1 default).decoy, f.1, f.2⟩) := by
+    unfold pepPsms; rw [if_pos (by decide)]
+  have hc := canon_of_db true exDb
+    (fun a b ha hb => h a (List.mem_range.mpr ha) b (List.mem_range.mpr hb)) exFeats _ hps
+  obtain ⟨qs, n, hq⟩ := no_panic 0 exPep (1/2) _ hc _ (List.Perm.refl _)
+  have hq' : pickedPeptide 0 exPep castQ 1 (1/2) true exDb exFeats = some (qs, n) := by
+    unfold pickedPeptide; rw [hps]; exact hq
+  exact ⟨qs, n, hq', (picked_peptide_same_peptide 0 exPep (1/2) true exDb exFeats qs n hq' 0 2 (0, 9) (0, 4)
+    rfl rfl rfl).1⟩
+
+/-- non-vacuity of `picked_protein_same_group`: its hypotheses are met by PSMs 0 and 1 of `exFeats`, which
+    hit DIFFERENT peptides of the protein group "P1" (same group string), while the generated decoy's string
+    differs ("rev_P1"); the PSM list is well-formed. (That the call returns is shown for the peptide level
+    above and by the correspondence runs; `no_panic` is stated for a `LinearOrder` on the index type and is
+    not instantiated at core `String` here.) -/
+example : exFeats[0]? = some (0, 9) ∧ exFeats[1]? = some (1, 7) ∧
+    (exDb.getD 0 default).proteinStr "rev_" true = (exDb.getD 1 default).proteinStr "rev_" true ∧
+    (exDb.getD 0 default).proteinStr "rev_" true ≠ (exDb.getD 2 default).proteinStr "rev_" true ∧
+    (protPsms true "rev_" exDb exFeats).isSome = true := by decide
+
+end dbLevel
+
 end Sage.C13
